@@ -22,6 +22,7 @@ type VC struct {
 	NOblig   int
 
 	addrFuns []string
+	nGlobals int
 	seqSeen  map[string]bool
 	defReads map[string][]string
 	Params   map[string]Term // parameter name -> SMT term (for model extraction)
@@ -249,11 +250,34 @@ func (vc *VC) typeFact(x Term, t types.Type) string {
 			return "(and " + strings.Join(parts, " ") + ")"
 		}
 	case *types.Interface:
-		return fmt.Sprintf("(and (<= 0 (i-tag %[1]s)) (=> (= (i-tag %[1]s) 0) (= (i-val %[1]s) 0)))", x.S)
+		base := fmt.Sprintf("(and (<= 0 (i-tag %[1]s)) (=> (= (i-tag %[1]s) 0) (= (i-val %[1]s) 0)))", x.S)
+		if u.NumMethods() > 0 {
+			// a non-nil value of static interface type I has a dynamic type implementing I
+			return fmt.Sprintf("(and %s (=> (not (= (i-tag %s) 0)) (%s (i-tag %s))))", base, x.S, vc.implPred(t), x.S)
+		}
+		return base
 	case *types.Pointer, *types.Map, *types.Chan:
 		return fmt.Sprintf("(<= 0 %s)", x.S)
 	}
 	return ""
+}
+
+// globalAddr: package-level variables live at small distinct negative addresses
+// (-1 .. -4095), disjoint from interior addresses and allocation references.
+func (vc *VC) globalAddr(key string) string {
+	name := "glob_" + key
+	if !vc.funSeen[name] {
+		vc.nGlobals++
+		vc.declFun(name, fmt.Sprintf("(define-fun %s () Int (- %d))", name, vc.nGlobals))
+	}
+	return name
+}
+
+// implPred: "the dynamic type with this tag implements interface t".
+func (vc *VC) implPred(t types.Type) string {
+	name := "impl_" + typeKey(t)
+	vc.declFun(name, fmt.Sprintf("(declare-fun %s (Int) Bool)", name))
+	return name
 }
 
 func (vc *VC) needStr() {
